@@ -127,7 +127,7 @@ def run(ctx):  # noqa: C901, PLR0912, PLR0915
             arg = unparse(c.args[0]) if c.args else ''
             facts = g.facts_at(n)
             ok = any(t.startswith(f'self._has_new_state_usable_state_version({recv}, {arg}') and p is True
-                     for t, p in facts)
+                     for t, p in facts.both())
             ctx.ob('C06.R2', f'{q}: {recv} updated behind the gate', ok,
                    f'{q}: the stored state is overwritten only with a strictly newer version of itself' if ok else
                    f'{q}: {recv}.update_from_other_container({arg}) is not dominated by the StateVersion gate on exactly '
@@ -149,7 +149,7 @@ def run(ctx):  # noqa: C901, PLR0912, PLR0915
             pn, pc = pre[0]
             inn, ic = inner[0]
             facts = g.facts_at(inn)
-            ok = any('_pre_check_report_ok' in t and p is True for t, p in facts) and bool(g.held_withs(inn, 'mdib_lock'))
+            ok = any('_pre_check_report_ok' in t and p is True for t, p in facts.both()) and bool(g.held_withs(inn, 'mdib_lock'))
             # handler registered for buffering == handler called
             ok = ok and len(pc.args) == 3 and unparse(pc.args[2]) == unparse(ic.func)
             # same version group and payload
@@ -201,6 +201,10 @@ def run(ctx):  # noqa: C901, PLR0912, PLR0915
            else 'a report is appended to the buffer on the strength of the unlocked state check alone: when reload_all '
                 'finished its replay in between, the report stays in the buffer and is never applied (lost report)',
            fi=pc)
+    # the GetMdib answer the consumer initialises from states the version its content has (read inside one lock region):
+    # content of version N labelled N+1 makes reload_all discard the buffered report N+1 as outdated
+    from .c07 import snapshot_providers
+    snapshot_providers(ctx, 'C06.R4')
     ck = repo.method(CM, '_check_sequence_or_instance_id_changed')
     g = cfg_of(ck)
     inval = [n for n in g.real_nodes() if n.kind == 'stmt' and isinstance(n.stmt, ast.Assign) and
@@ -218,6 +222,16 @@ def run(ctx):  # noqa: C901, PLR0912, PLR0915
                                f'self._state == ConsumerMdibState.initialized and not ({seq} and {ins})')
         if not ok:
             wit = {'invalidates when': w.describe(w.cond(inval[0])), **wit}
+    # the state is `invalid` before the application is told (the observer - typically reload_all - runs in another thread
+    # and writes the state itself: a late `invalid` would freeze the freshly reloaded MDIB)
+    starts = g.nodes_calling('start') + [(n_, c_) for n_, c_ in g.nodes_calling('Thread')] + \
+        [(n_, None) for n_ in g.real_nodes() if n_.kind == 'stmt' and isinstance(n_.stmt, ast.Assign) and
+         unparse(n_.stmt.targets[0]).endswith('sequence_or_instance_id_changed_event')]
+    order_ok = len(inval) == 1 and bool(starts) and all(g.dominates(inval[0], n_) for n_, _ in starts)
+    ctx.ob('C06.R3', 'invalid before the change event', order_ok,
+           'the state is set to `invalid` before the thread that announces the change is created / started' if order_ok else
+           'the thread that announces the sequence / instance change is started before the state is set to `invalid`: an '
+           'observer that reloads at once is overtaken by the late write and the reloaded MDIB stays invalid', fi=ck)
     ctx.ob('C06.R3', 'watchdog invalidates on any mismatch', ok,
            'a report whose SequenceId or InstanceId differs sets the state to `invalid` (when initialized)', fi=ck, witness=wit)
     writers = {}
